@@ -10,9 +10,9 @@ CLAIMED = {
     technique="SAT-based bounded model checking (Kani/CBMC) of one inductive step over a symbolic reference-count word; native replay under valgrind",
     design="§4 C05"),
  "C03": dict(
-    text="Bounded model checking (Kani/CBMC) of the test that authorises every in-place update of a shared value: the real get_mut / make_mut / try_unwrap of the reference-counting crate, one operation from EVERY count word satisfying the representation invariant and every acting thread; exclusive access / in-place mutation only with exactly one live reference, other holders keep seeing the old contents. This is the part of the property that does not depend on the compiler.",
+    text="Bounded model checking (Kani/CBMC) of the test that authorises every in-place update of a shared value: the real get_mut / make_mut / try_unwrap of the reference-counting crate, one operation from EVERY count word satisfying the representation invariant and every acting thread; exclusive access / in-place mutation only with exactly one live reference, other holders keep seeing the old contents. This is the part of the property that does not depend on the compiler. Round 3: an SMT query over the data flow of the script-callable collection primitives read from MIR: all sharing arms of a primitive (operand shared / uniquely referenced) give the receiver role of an order-sensitive library call to the same parameter (hash-union's four arms), so the result does not depend on the reference counts.",
     note="As C05. Outside: the compiler's last-use analysis and MOVE* opcodes (they decide when the count is 1), persistent-collection node reuse, the collection primitives themselves (hash_insert on an imbl map did not finish in 13 min).",
-    technique="SAT-based bounded model checking (Kani/CBMC) of one inductive step over a symbolic reference-count word; native replay under valgrind",
+    technique="SAT-based bounded model checking (Kani/CBMC) of one inductive step over a symbolic reference-count word; native replay under valgrind; SMT (z3) over MIR-extracted operand roles of the sharing arms of collection primitives, native replay under the four sharing patterns",
     design="§4 C03"),
  "C04": dict(
     text="Bounded model checking (Kani/CBMC) of the real mutable-storage allocator FreeList<T> (instantiated at u8): one weak collection and one allocation (thorough: also mark reset + recount) from EVERY 3-slot pre-state satisfying the invariant; no slot with a held handle is overwritten or freed, the new handle reads back its value, the invariant is re-established. Plus SMT queries (z3, QF_BV) over the kind tables of the tracing visitors read from the MIR of the real functions (push_back leaf list, visit dispatch, tracing call sites per visit method, SteelValPointer::from_value): no value kind is skipped by the marker or by the reference marker of sync builds while a sibling visitor traces its children. Round 3: per visit method a rank-encoded reachability query (can the method return without passing any of its tracing calls?) and a differential query over the three visitors (no early exit that no sibling has).",
@@ -45,7 +45,7 @@ CLAIMED = {
     technique="SAT-based bounded model checking (Kani/CBMC) of the real primitives with a 128-bit arithmetic oracle, and SMT (z3, QF_BV) over the MIR of the numeric kernels for kind-pair totality and (code generator) for the range of literal operands packed into instruction payloads; native replay by concrete playback / a script call",
     design="§4 C10"),
  "C11": dict(
-    text="PARTIAL (sequences only): bounded model checking (Kani/CBMC) of the registered wrappers of bytes-ref, bytes-set!, bytes-copy, string-ref (thorough: bytes->string/utf8, integer->char) on a 2-byte vector / 3-character string with symbolic contents and full-width symbolic integer arguments: the answer is the one the mathematical sequence gives exactly for the valid indices and an error otherwise. Plus an SMT query (z3) over the decision trees of `PartialEq::eq` and `RecursiveEqualityHandler::visit` read from MIR: every kind compared by value at the top level has an arm for nested values (leaf comparison is the same at every depth). Sharing inside values (F7) and hashing are NOT decided by any check. Round 3: SMT queries over the data flow of the real equality handler read from MIR: every two-operand call / comparison of RecursiveEqualityHandler::visit takes one operand from the left and one from the right value, every kind whose arm iterates also compares the two lengths, every key of the visited set is built from both sides (this decides the sharing defect F7 and the hash-set defect, both repaired).",
+    text="PARTIAL (sequences only): bounded model checking (Kani/CBMC) of the registered wrappers of bytes-ref, bytes-set!, bytes-copy, string-ref (thorough: bytes->string/utf8, integer->char) on a 2-byte vector / 3-character string with symbolic contents and full-width symbolic integer arguments: the answer is the one the mathematical sequence gives exactly for the valid indices and an error otherwise. Plus an SMT query (z3) over the decision trees of `PartialEq::eq` and `RecursiveEqualityHandler::visit` read from MIR: every kind compared by value at the top level has an arm for nested values (leaf comparison is the same at every depth). Sharing inside values (F7) and hashing are NOT decided by any check. Round 3: SMT queries over the data flow of the real equality handler read from MIR: every two-operand call / comparison of RecursiveEqualityHandler::visit takes one operand from the left and one from the right value, every kind whose arm iterates also compares the two lengths, every key of the visited set is built from both sides (this decides the sharing defect F7 and the hash-set defect, both repaired). And: the cross-kind arms of the equality handler against the kind tag the hash mixes in (a mutable and an immutable vector are equal? and must hash alike).",
     note="Measured out: the real equality handler (drop glue of 37 variants per loop iteration: >1200 s, 12 GB; harness/eq.rs kept as the record; the sharing defect F7 is decided since round 3 by the MIR data-flow queries, not by executing the handler), hashing (SipHash + HAMT), lists / persistent vectors / hash maps / hash sets (1200 s timeouts), substring, make-bytes. One operation at a time, not operation sequences. The data-flow facts say which values meet in a call, not what the callee does with them; hashing agreement is not decided.",
     technique="SAT-based bounded model checking (Kani/CBMC) of real sequence primitives through their registered wrappers against a mathematical-sequence oracle, and SMT (z3, QF_BV) over MIR-extracted arm tables of the two equality matches; native replay by concrete playback / equal? on nested values through the engine",
     design="§4 C11"),
